@@ -27,7 +27,7 @@ POOL_NAMES = ["1", "-1", "0", "300", "1.5", "2.0", "'2'", "'x'", "True", "'2020-
 
 PANDAS_DTYPES = [
     "int8", "int16", "int64", "uint8", "uint64", "float32", "float64", "bool", "str", "object", "datetime64[ns]", "timedelta64[ns]",
-    "Int8", "Int64", "UInt8", "Float64", "boolean", "string", "category", "complex128",
+    "Int8", "Int64", "UInt8", "Float64", "boolean", "string", "category", "category[1,x]", "complex128",
     "int64[pyarrow]", "float64[pyarrow]", "bool[pyarrow]", "string[pyarrow]",
 ]
 POLARS_DTYPES = ["Int8", "Int64", "UInt8", "Float64", "Boolean", "Utf8", "Date", "Datetime"]
@@ -71,6 +71,9 @@ def _norm(v):
 def _pd_dtype(name):
     from pandera.engines import pandas_engine
 
+    if name == "category[1,x]":
+        # a parametrised Category: values outside the categories are individually uncoercible
+        return pandas_engine.Category(categories=[1, "x"], ordered=False)
     if name == "str":
         return pandas_engine.Engine.dtype(str)
     return pandas_engine.Engine.dtype(name)
@@ -159,7 +162,7 @@ def _explore_pandas(dtname, maxlen, kinds):
                         add("result_passes_own_check", f"{kind}:{res.dtype}", f"{names} -> dtype {res.dtype}")
                     got = [_norm(x) for x in list(res)]
                     want = [_norm(s[1]) for s in singles]
-                    if dtname == "category":
+                    if dtname.startswith("category"):
                         # categories are de-duplicated with python equality (True == 1): not pandera's doing
                         unb = lambda z: {"b:True": "n:1.0", "b:False": "n:0.0"}.get(z, z)
                         gotc, wantc = [unb(z) for z in got], [unb(z) for z in want]
